@@ -29,6 +29,8 @@ TARGETS = ["Props/C10.vo"]
 TRUSTED = [
     "repr(float) is an oracle: a float parameter enters the model as the shape of its repr ([-]d.d, [-]d[.d]e+-dd, inf, nan) computed "
     "by the harness; numbers.Integral / float() / isinstance dispatch of _qasm_number are read as int vs float",
+    "the measure statement is exported without ';' (open known finding measure-without-semicolon, pinned by tests/test_qasm.py): for circuits "
+    "with a Measurement the validity clause is reported as that finding and the remaining clauses are checked on the text with the ';' supplied",
     "Spec/QasmStrict.v (strict lexer + parser written from the grammar of the specification) and Spec/Qasm.v / QasmSem.v (semantics, "
     "qelib1.inc by hand) are the oracle; 'every emitted text is accepted by the strict reader' is PROVED per statement shape only for "
     "the definitions the exporter emits and CHECKED (vm_compute of strict_parse on the model's text) on every generated circuit",
@@ -265,10 +267,20 @@ def oracle(c, qc, text, err, rng=None):
     if not exportable(c) and any(("gate" in o and (o["gate"] in NON_EXPORTABLE or o.get("cc"))) or ("meas" in o and o["meas"][1] is None)
                                  for o in c["ops"]):
         return (text[-200:], "refused with an error", "a non-exportable operation is exported")
+    semicolon_only = False
     try:
         nq, nc, prims = OQ.elaborate(OQ.parse(text))
     except OQ.QasmError as e:
-        return (text.split("\n\n")[-1][-300:], "valid OpenQASM 2.0", f"exported text is not valid OpenQASM 2.0: {e}")
+        # the measure statement is emitted without ';' (open known finding): if that is the ONLY obstacle, all other
+        # clauses are still checked on the text with the ';' supplied, and the failure is reported as exactly that
+        repaired = MEAS_LINE.sub(r"\1;", text)
+        if repaired == text or not any("meas" in o for o in c["ops"]):
+            return (text.split("\n\n")[-1][-300:], "valid OpenQASM 2.0", f"exported text is not valid OpenQASM 2.0: {e}")
+        try:
+            nq, nc, prims = OQ.elaborate(OQ.parse(repaired))
+        except OQ.QasmError as e2:
+            return (text.split("\n\n")[-1][-300:], "valid OpenQASM 2.0", f"exported text is not valid OpenQASM 2.0: {e2}")
+        semicolon_only = True
     if (nq, nc) != (qc.N, qc.num_cbits):
         return ([nq, nc], [qc.N, qc.num_cbits], "registers of the exported program")
     seed = rng.randrange(2 ** 31) if rng is not None else 4242
@@ -294,7 +306,13 @@ def oracle(c, qc, text, err, rng=None):
         bad = _diff(own, back)
         if bad:
             return (bad, "same action up to a global phase", "re-imported circuit acts differently: " + bad)
+    if semicolon_only:
+        return ([l for l in text.splitlines() if MEAS_LINE.match(l)][:3], "measure q[i] -> c[j];", SEMI)
     return None
+
+
+MEAS_LINE = re.compile(r"(?m)^(measure q\[\d+\] -> c\[\d+\])$")
+SEMI = "exported text is not valid OpenQASM 2.0 only because the measure statement lacks the terminating ';'"
 
 
 def _diff(a, b):
@@ -342,6 +360,11 @@ def replay(ctx, rec):
 
 
 def classify(f):
+    """measure-without-semicolon: the strict reader rejects the text, the circuit contains a Measurement, and with the ';'
+    supplied every clause (validity, denotation, re-import of the original text) holds - established by `oracle`"""
+    c = f.get("input", {}).get("circuit", {})
+    if f.get("what") == SEMI and any("meas" in o for o in c.get("ops", [])):
+        return "measure-without-semicolon"
     return None
 
 
@@ -396,6 +419,10 @@ def correspond(ctx):
             mtext, (lexed, wf, nops) = m
             if mtext != text:
                 corr.disagree(inp, text.split("\n\n")[-1][-300:], mtext.split("\n\n")[-1][-300:], "exported text differs")
+            elif any("meas" in o for o in c["ops"]):
+                if lexed:      # export_valid_measure_refuted: the strict reader must reject the unterminated measure statement
+                    corr.disagree(inp, text.split("\n\n")[-1][-300:], dict(strict_parse=lexed),
+                                  "Spec/QasmStrict.v accepts a measure statement without ';'")
             elif not (lexed and wf) or nops != len(c["ops"]):
                 corr.disagree(inp, text.split("\n\n")[-1][-300:], dict(strict_parse=lexed, wf=wf, operations=nops),
                               "Spec/QasmStrict.v does not accept the model's own export (export_valid fails on this case)")
